@@ -33,6 +33,8 @@ pub enum P {
     StreamReq(S, S),
     /// `stream(a).then_stream(|_| stream(b)).then_send(got)` (flatten_unordered)
     StreamStream(S, S),
+    /// async with builders: `request(a).into_future(ctx)`, `notify(n).into_future(ctx)`, `stream(b).into_stream(ctx)`
+    IntoFuture(S, S, S),
     /// `request(a).map(f).then_send(got)`
     ReqMap(S),
     /// `stream(a).map(f).then_send(got)`
@@ -121,7 +123,7 @@ impl P {
             P::ReqReq(a, b) | P::ReqStream(a, b) | P::StreamReq(a, b) | P::StreamStream(a, b)
             | P::Join(a, b) | P::Select(a, b) | P::SpawnJoin(a, b) | P::SpawnAfter(a, b) | P::Burst(a, b) | P::Channel(a, b)
             | P::Unordered(a, b) | P::JoinTwice(a, b) => vec![a, b],
-            P::AbortChild(a, b, c) => vec![a, b, c],
+            P::AbortChild(a, b, c) | P::IntoFuture(a, b, c) => vec![a, b, c],
             _ => vec![],
         }
     }
@@ -216,6 +218,7 @@ pub fn async_atoms() -> Vec<P> {
         P::Channel(s0(), s0()),
         P::AbortChild(s0(), s0(), s0()),
         P::JoinTwice(s0(), s0()),
+        P::IntoFuture(s0(), s0(), s0()),
     ]
 }
 
